@@ -16,7 +16,7 @@ class C13(ChanSpec):
                   "interleaving of Listen, the steps of Sync, accepted connections, Listener.Close (any number of calls) and the steps of Shutdown, once Shutdown has cancelled the context, "
                   "returned from Range and every Close has finished, no Sync is blocked in Accept on an open acceptor; at quiescence every started Sync has returned the server-closed error "
                   "with its acceptor closed, and a Sync started later returns it without ever accepting; after CloseAll no channel is parked in a read, every channel that was accepted is "
-                  "closed with its transport closed exactly once and inactive delivered exactly once, including channels activated after the holder's map was swapped. The pinned listener "
+                  "closed with its transport closed exactly once and inactive delivered exactly once, including channels activated after the holder's map was swapped and channels whose active handler is waiting for the peer (the pinned holder, which forwards active whatever the context says, is refuted by a history the controller exhibited on the real code before fix cf5752a). The pinned listener "
                   "(no closed mark, no context test after creating the acceptor) is refuted by a concrete history in the model that the controller replayed on the real code before the fix. "
                   "Tie: bootstrap.go, holder.go and channel.go are instrumented (a scheduling point before every registry/mutex/acceptor/context operation, labels carrying the listener "
                   "object / channel id) and run over a mock transport factory under the controller (random, sticky and preemption-bounded DFS schedules); every step must be an enabled "
@@ -24,10 +24,10 @@ class C13(ChanSpec):
     level_note = ("Trusted: Lean kernel; axioms propext/Classical.choice/Quot.sound only; the hand-written LTS is tied by monitored executions only (no translator); sync.Map (Range visits "
                   "every entry that stays in the map throughout; LoadOrStore/Delete atomic), sync.Mutex, context cancellation and the executor are modelled; the TCP acceptor is replaced by a "
                   "mock whose Accept fails exactly when it was closed (accept errors of other kinds are outside the model); channels are closed by the bootstrap, by a peer hang-up or by "
-                  "their own read loop, user handlers that block forever are outside the model.")
+                  "their own read loop; a handler waiting for the peer inside HandleActive is modelled (state activating), handlers blocking on anything else are outside the model.")
     rule = ("per scenario: 1-2 listen ops (Listen + Async) on one thread, 0-2 dials (each waits until its listener accepts; 1/4 followed by a peer hang-up) on another, a Shutdown thread that "
             "1/2 of the time first waits for 1-2 connections, plus (1/6 each) a Listener.Close before Shutdown, a Listener.Close racing it from its own thread, or Close / re-Listen of the "
-            "same url / Close of the old listener again; 1/5 a Listen+Async after Shutdown; random schedules with stickiness 0/50/80/95 and DFS with 2-3 preemptions; plus 8 (thorough 150) runs over the real TCP factory on the loopback interface: 0-3 client "
+            "same url / Close of the old listener again; 1/5 a Listen+Async after Shutdown; 1/5 of the listen ops meet a factory that refuses once, Async is retried on the same listener; 1/4 of the scenarios give every channel an active handler that waits for a greeting of the peer; random schedules with stickiness 0/50/80/95 and DFS with 2-3 preemptions; plus 8 (thorough 150) runs over the real TCP factory on the loopback interface: 0-3 client "
             "connections, Shutdown right after Async or once the connections are active; observed: Sync's error, every client sees its connection closed, a new dial is refused, inactive = active")
     assumptions = ("the executor runs every submitted action eventually", "Accept returns an error exactly when the acceptor has been closed")
     modelled_not_verified = ("sync.Map", "sync.Mutex", "context.WithCancel", "transport/tcp acceptor (mock)", "Executor")
